@@ -44,13 +44,17 @@ type c20Exec struct {
 
 var c20ErrVars = []string{"REQBODY_ERROR", "REQBODY_PROCESSOR_ERROR", "MULTIPART_STRICT_ERROR", "INBOUND_DATA_ERROR", "OUTBOUND_DATA_ERROR", "URLENCODED_ERROR"}
 
+// message variables: dumped too, used to tell a new failure from one the
+// fault-free run already reported
+var c20MsgVars = []string{"REQBODY_ERROR_MSG", "REQBODY_PROCESSOR_ERROR_MSG"}
+
 func c20Gen(t *verifrt.Tape) (*c20Scenario, *Config) {
 	o := genOpts{MaxRules: 4, Phases: []int{1, 2, 2, 3, 4, 5}, Disruptive: 8, Response: true, LogFlags: true, Chains: false}
 	cfg := genConfig(t, &o)
 	cfg.Engine = "On"
 	cfg.ReqAccess = true
 	cfg.RespAccess = t.Draw(2) == 0
-	cfg.ReqLimit = 40 + t.Draw(360)
+	cfg.ReqLimit = 16 + t.Draw(384)
 	cfg.ReqMem = 1 + t.Draw(24)
 	cfg.ReqReject = t.Draw(2) == 0
 	cfg.UploadDir = simos.Root + "/upload"
@@ -81,7 +85,7 @@ func c20Gen(t *verifrt.Tape) (*c20Scenario, *Config) {
 		sc.Script.Body = []byte("a=tok1&b=0123456789012345678901234567890123456789")
 	}
 	sc.Probe = genScript(t, &reqOpts{Body: true, MaxArgs: 3}, "probe")
-	sc.Config = cfg.Text() + fmt.Sprintf("SecRule %s \"@unconditionalMatch\" \"id:9991,phase:5,pass,nolog\"\n", strings.Join(c20ErrVars, "|"))
+	sc.Config = cfg.Text() + fmt.Sprintf("SecRule %s \"@unconditionalMatch\" \"id:9991,phase:5,pass,nolog\"\n", strings.Join(append(append([]string{}, c20ErrVars...), c20MsgVars...), "|"))
 	return sc, cfg
 }
 
@@ -288,12 +292,17 @@ func c20Run(w *verifrt.World, tier Tier) *RunResult {
 				case ex.DebugMsgs > base.DebugMsgs:
 					visible = "log entry"
 				}
+				msgDiffers := false
+				for _, v := range c20MsgVars {
+					if ex.Dump[v] != base.Dump[v] {
+						msgDiffers = true
+					}
+				}
 				for _, v := range c20ErrVars {
-					// an error variable that reads 1 counts as a visible report even
-					// if the fault-free run set it too (the request was already
-					// malformed): the new failure cannot be told apart and is not
-					// claimed to be swallowed
-					if ex.Dump[v] == "1" {
+					// an error variable that reads 1 is a visible report if the
+					// fault-free run did not set it, or set it with another message
+					// (the request was already malformed and now fails differently)
+					if ex.Dump[v] == "1" && (base.Dump[v] != "1" || msgDiffers) {
 						visible = "error variable " + v
 					}
 				}
